@@ -26,6 +26,8 @@ def program_strategy(role):
     name = st.sampled_from(NAMES)
     if role == 'committer':
         op = st.one_of(st.tuples(st.just('write'), st.sampled_from(PLAIN)), st.tuples(st.just('write'), st.sampled_from(PLAIN)),
+                       # a write that makes the transaction larger than a file buffer (8 KiB)
+                       st.tuples(st.just('write'), st.sampled_from(PLAIN), st.just('big')),
                        st.tuples(st.just('inc'), st.sampled_from(COUNTERS), st.integers(1, 3)),
                        st.tuples(st.just('read'), name), st.tuples(st.just('commit')), st.tuples(st.just('commit')),
                        st.tuples(st.just('begin')), st.tuples(st.just('abort')), st.tuples(st.just('readcurrent'), name))
@@ -147,6 +149,10 @@ class ThreadRun:
                             w = self.wid            # (shared counter: taken before any yield point)
                             o.v = w
                             o.derived_from = o._p_serial
+                            if len(op) > 2 and op[2] == 'big':
+                                o.pad = 'p' * (9000 + 7 * (w % 100))
+                            elif 'pad' in o.__dict__:
+                                del o.pad
                             wrote[op[1]] = w
                         elif k == 'inc':
                             o = conn.root()[op[1]]
